@@ -25,7 +25,7 @@ def errcode(name, _cache={}):
     if not _cache:
         import re
         txt = open(os.path.join(build.REPO, "include/bee2/core/err.h"), encoding="utf-8", errors="replace").read()
-        for m in re.finditer(r"#define\s+(ERR_\w+)\s+\(\(err_t\)(\d+)\)", txt):
+        for m in re.finditer(r"#define\s+(ERR_\w+)\s+(?:_ERR_REG\(|\(\(err_t\))(\d+)\)", txt):
             _cache[m.group(1)] = int(m.group(2))
         _cache["ERR_OK"] = 0
         _cache["ERR_MAX"] = 0xFFFFFFFF
